@@ -48,7 +48,11 @@ pub fn json_to_value(j: &J) -> Option<Value> {
                 return None;
             }
             let signed = if a[1].as_bool()? { -(m as i128) } else { m as i128 };
-            Value::Number(Decimal::from_i128_with_scale(signed, scale))
+            let mut d = Decimal::from_i128_with_scale(signed, scale);
+            if a[1].as_bool()? && m == 0 {
+                d.set_sign_negative(true); // negative zero: the sign flag unary minus leaves on a zero
+            }
+            Value::Number(d)
         }
         "bool" => Value::Bool(a[1].as_bool()?),
         "str" => Value::String(a[1].as_array()?.iter().map(|c| char::from_u32(c.as_u64().unwrap() as u32).unwrap()).collect()),
